@@ -39,6 +39,13 @@ def main():
         print("patch does not apply:", a.stdout)
         return 2
     sh(f"git -C /repo apply {patch}")
+    # runs against a patched tree must not leave their evidence / replays behind as if they described /repo
+    import shutil, tempfile
+    keep = tempfile.mkdtemp(prefix="seedkeep-", dir=os.path.join(VERIF, ".cache"))
+    for p in props:
+        ev = os.path.join(VERIF, "evidence", p + ".json")
+        if os.path.exists(ev):
+            shutil.copy2(ev, os.path.join(keep, p + ".json"))
     try:
         for p in props:
             r = sh(f"cd {VERIF} && ./check {p} --tier quick", timeout=3600)
@@ -53,6 +60,11 @@ def main():
         res["demo_patched_rc"] = rc2
     finally:
         sh(f"git -C /repo apply -R {patch}")
+        for p in props:
+            ev = os.path.join(keep, p + ".json")
+            if os.path.exists(ev):
+                shutil.copy2(ev, os.path.join(VERIF, "evidence", p + ".json"))
+        shutil.rmtree(keep, ignore_errors=True)
         C.cargo_build()
     mp = os.path.join(d, "meta.json")
     try:
